@@ -274,7 +274,7 @@ func (s *Sched) commit(t *Thread, kind uint8, o *Obj, write bool, res uint64) {
 // Observe folds a value the current thread read from the environment (clock,
 // scripted random answer) into its hash without a scheduling point.
 func (s *Sched) Observe(v uint64) {
-	if s.aborting {
+	if s == nil || s.aborting {
 		return
 	}
 	s.cur.hb = mix(s.cur.hb, v^0x0b5e)
@@ -751,6 +751,10 @@ func (s *Sched) reap(self *Thread) {
 // Go starts f as a new thread (the rewrite of a go statement).
 func Go(f func()) {
 	s := S
+	if s == nil {
+		go f() // outside any execution (sequential E2 harnesses): the real thing
+		return
+	}
 	if s.aborting {
 		return
 	}
@@ -769,7 +773,7 @@ func Go(f func()) {
 // GoNamed is Go with a readable thread name (harness use).
 func GoNamed(name string, f func()) {
 	s := S
-	if s.aborting {
+	if s == nil || s.aborting {
 		return
 	}
 	s.Point(KGo, nil, nil)
@@ -796,7 +800,7 @@ var waitObj Obj
 // (no shim operations); it is evaluated by the scheduler.
 func WaitUntil(desc string, pred func() bool) {
 	s := S
-	if s.aborting {
+	if s == nil || s.aborting {
 		return
 	}
 	s.cur.pdesc = desc
@@ -813,7 +817,7 @@ func WaitUntil(desc string, pred func() bool) {
 // write on a scheduler object, so the logged order is part of the state key.
 func Log(ev string) {
 	s := S
-	if s.aborting {
+	if s == nil || s.aborting {
 		return
 	}
 	s.Point(KLog, &s.logObj, nil)
@@ -827,7 +831,7 @@ func Log(ev string) {
 // LogQuiet appends without a scheduling point (still hashed, still ordered).
 func LogQuiet(ev string) {
 	s := S
-	if s.aborting {
+	if s == nil || s.aborting {
 		return
 	}
 	s.log = append(s.log, ev)
@@ -840,7 +844,7 @@ func Events() []string { return S.log }
 // Fail records an oracle violation for this execution.
 func Fail(oracle, keyDetail, msg string) {
 	s := S
-	if s.aborting && s.status != StOK {
+	if s == nil || (s.aborting && s.status != StOK) {
 		return
 	}
 	s.viols = append(s.viols, Violation{Oracle: oracle, Key: oracle + ":" + keyDetail, Msg: msg})
@@ -858,10 +862,10 @@ func Cur() *Sched { return S }
 // CurThread returns the running thread.
 func (s *Sched) CurThread() *Thread { return s.cur }
 
-func (s *Sched) IsAborting() bool { return s.aborting }
+func (s *Sched) IsAborting() bool { return s == nil || s.aborting }
 
 func (s *Sched) Commit(kind uint8, o *Obj, write bool, res uint64) {
-	if s.aborting {
+	if s == nil || s.aborting {
 		return
 	}
 	s.commit(s.cur, kind, o, write, res)
@@ -879,7 +883,7 @@ func (t *Thread) Since() uint64      { return t.since }
 // object: it makes the order of harness-level events part of the state key.
 func Touch(o *Obj, write bool, val uint64) {
 	s := S
-	if s.aborting {
+	if s == nil || s.aborting {
 		return
 	}
 	s.Point(KLog, o, nil)
